@@ -95,6 +95,9 @@ class C10(Prop):
         errs = [e for e in obs.get('loop_errors', ()) if 'never retrieved' not in e]
         if errs:
             return 'an exception escaped into the event loop: ' + errs[0][:200]
+        if obs.get('refused_during_join'):
+            return ('spawn() / add_task() was refused ("task group terminated") while join() was still cancelling and waiting for '
+                    f'members: members added during join are members (refused: {obs["refused_during_join"]})')
         # members added when already finished enter _done at the instant of the addition; the others in finishing order
         seq = [t for t in seq if t not in a['already']]
         if seq != a['finish_order'][:len(seq)]:
